@@ -21,8 +21,11 @@ Record rowdef := mkrow { rd_eq : civil -> civil -> bool; rd_p : period; rd_w : p
 Inductive delopt := DNotSet | DNever | DAfter (t : Z).
 
 (* A snapshot as far as `forget` looks at it.  s_id: the hex form of the id as a
-   list of nibbles; s_tags: tag numbers. *)
-Record snap := { s_inst : Z; s_offs : Z; s_id : list N; s_tags : list N; s_del : delopt; s_tree : N }.
+   list of nibbles; s_tags: tag numbers (a `StringList` is a BTreeSet<String>: the list is
+   read as a set, see `canon`); s_host / s_label: the hostname and label strings as numbers
+   (the harness maps numbers to strings order-preservingly); s_paths: a StringList again. *)
+Record snap := { s_inst : Z; s_offs : Z; s_id : list N; s_tags : list N; s_del : delopt; s_tree : N;
+                 s_host : N; s_label : N; s_paths : list N }.
 
 Record keep := {
   k_count : period -> option Z;        (* keep_last, keep_minutely, ... (i32; -1 = all) *)
@@ -34,3 +37,38 @@ Record keep := {
 
 Definition is_nil {A} (l : list A) : bool := match l with [] => true | _ => false end.
 Definition isSome {A} (o : option A) : bool := match o with Some _ => true | None => false end.
+
+(* ---------------------------------------------------------------- grouping (grouping.rs) *)
+(* SnapshotGroupCriterion *)
+Record crit := { cr_host : bool; cr_label : bool; cr_paths : bool; cr_tags : bool }.
+(* SnapshotGroup: `None` = not grouped by this field *)
+Record gkeyT := { gk_host : option N; gk_label : option N;
+                  gk_paths : option (list N); gk_tags : option (list N) }.
+
+(* BTreeSet<String> built from a list: strictly ascending, duplicate-free *)
+Fixpoint ins (x : N) (l : list N) : list N :=
+  match l with
+  | [] => [x]
+  | y :: t => match N.compare x y with Lt => x :: l | Eq => l | Gt => y :: ins x t end
+  end.
+Definition canon (l : list N) : list N := fold_right ins [] l.
+
+(* the orders Rust derives / the std library defines *)
+Definition then_cmp (a b : comparison) : comparison := match a with Eq => b | _ => a end.   (* Ordering::then *)
+Definition cmp_opt {A} (c : A -> A -> comparison) (x y : option A) : comparison :=      (* Option<T>: None < Some *)
+  match x, y with
+  | None, None => Eq | None, Some _ => Lt | Some _, None => Gt | Some a, Some b => c a b
+  end.
+Fixpoint cmp_list {A} (c : A -> A -> comparison) (x y : list A) : comparison :=         (* Iterator::cmp: lexicographic *)
+  match x, y with
+  | [], [] => Eq | [], _ :: _ => Lt | _ :: _, [] => Gt
+  | a :: x', b :: y' => then_cmp (c a b) (cmp_list c x' y')
+  end.
+Definition cmp_str : N -> N -> comparison := N.compare.
+Definition cmp_strlist : list N -> list N -> comparison := cmp_list N.compare.
+Definition opt_eqb {A} (e : A -> A -> bool) (x y : option A) : bool :=
+  match x, y with None, None => true | Some a, Some b => e a b | _, _ => false end.
+Fixpoint list_eqb {A} (e : A -> A -> bool) (x y : list A) : bool :=
+  match x, y with [], [] => true | a :: x', b :: y' => e a b && list_eqb e x' y' | _, _ => false end.
+Definition eqb_str : N -> N -> bool := N.eqb.
+Definition eqb_strlist : list N -> list N -> bool := list_eqb N.eqb.
